@@ -1,6 +1,6 @@
 SPECIFICATION Spec
-CONSTANTS MaxH = 6
-          MaxCrash = 6
+CONSTANTS MaxH = 10
+          MaxCrash = 10
           MaxMut = 0
           MaxLen = 99
           Kinds = {}
